@@ -187,6 +187,93 @@ def oracle(p):
             return [[r[0]] for r in spv], [[r[0]] * D for r in spv]
         return [list(r) for r in spv], spv  # batch
 
+    # --- prewitt / sobel: exact on affine data at every point that is interior with respect to the OTHER axes, including the
+    #     first and last grid point ALONG the differentiated axis (forward / backward differences there); this is where the
+    #     unchanged code is exact, the zero-padded smoothing (known finding) only spoils the boundary of the other axes
+    if p.get("stage", "all") in ("all", "edge"):
+        for mode in ("prewitt", "sobel"):
+            for D in (2, 3):
+                for form in ("none", "scalar", "axis", "batch", "batch-iso"):
+                    N = 2 if form.startswith("batch") else 1
+                    shape_t = tuple(rng.randint(5, 7 if D == 2 else 6) for _ in range(D))
+                    if form == "none":
+                        spacing, spv = None, [[1.0] * D] * N
+                    else:
+                        spacing, spv = spacing_forms(rng, N, D, form)
+                    letters, chans = "xyz"[:D], "uvw"[:D]
+                    desc = {"mode": mode, "D": D, "shape": list(shape_t), "spacing": spacing, "N": N}
+                    bump(f"derivative-axis-boundary:{mode}:D{D}:{form}")
+                    try:
+                        A = [[[dy(rng) or 0.75 for _ in range(D)] for _ in range(D)] for _ in range(N)]
+                        u = torch.stack([affine_field(A[b], [0.5] * D, coords(shape_t, spv[b])) for b in range(N)], 0)
+                        for sd in range(D):
+                            # region: all indices along sd, interior along every other axis; must contain both ends along sd
+                            reg = exact_mask(mode, shape_t, [sd], True)
+                            ends = torch.zeros(shape_t, dtype=torch.bool)
+                            sl0 = [slice(1, -1)] * D
+                            sl0[D - 1 - sd] = 0
+                            ends[tuple(sl0)] = True
+                            sl0[D - 1 - sd] = -1
+                            ends[tuple(sl0)] = True
+                            assert bool((reg & ends).sum() == ends.sum())
+                            key = letters[sd]
+                            # spatial_derivatives on each component
+                            for ch in range(D):
+                                r = spatial_derivatives(u[:, ch:ch + 1], which=[key], mode=mode, spacing=spacing)[key]
+                                for b in range(N):
+                                    e = (r[b, 0] - A[b][ch][sd]).abs()
+                                    if float(e[reg].max()) > 1e-9:
+                                        at_end = float(e[ends].max()) > 1e-9
+                                        fail(f"C12:spatial_derivatives:{mode}:derivative-axis-boundary" if at_end else f"C12:spatial_derivatives:{mode}:affine-not-exact",
+                                             f"{desc}: d/d{key} of an affine field (slope {A[b][ch][sd]}) is off by {float(e[reg].max()):.3g} at a point that is interior "
+                                             f"w.r.t. the other axes" + (" -- at the first / last grid point along the differentiated axis" if at_end else ""),
+                                             case=desc, A=A[b], sdim=sd)
+                                        raise StopIteration
+                            if form == "none":
+                                continue  # flow_derivatives' default spacing is the normalised cube, checked elsewhere
+                            fdv = FL.flow_derivatives(u, which=[key], mode=mode, spacing=spacing)
+                            jm = FL.jacobian_matrix(u, mode=mode, spacing=spacing)
+                            for b in range(N):
+                                for ch in range(D):
+                                    for name, val in ((f"flow_derivatives", fdv[f"d{chans[ch]}/d{key}"][b, 0]), ("jacobian_matrix", jm[b][..., ch, sd])):
+                                        e = (val - A[b][ch][sd]).abs()
+                                        if float(e[reg].max()) > 1e-9:
+                                            fail(f"C12:{name}:{mode}:derivative-axis-boundary",
+                                                 f"{desc}: d{chans[ch]}/d{key} of an affine field is off by {float(e[reg].max()):.3g} at a point that is interior "
+                                                 f"w.r.t. the other axes (region includes the first / last point along {key})", case=desc, A=A[b], sdim=sd)
+                                            raise StopIteration
+                            # divergence / curl of fields with a single non-zero Jacobian entry: exact on the same region
+                            for b in range(1):
+                                X = coords(shape_t, spv[b])
+                                a_ = 1.75
+                                comp = [torch.zeros(shape_t, dtype=torch.float64) for _ in range(D)]
+                                comp[sd] = a_ * X[sd] + 0.5
+                                w = torch.stack(comp, 0).unsqueeze(0)
+                                sp1 = spacing if N == 1 else (spv[0] if form == "batch" else spv[0][0])
+                                dv = FL.divergence(w, mode=mode, spacing=sp1)
+                                if float((dv[0, 0] - a_).abs()[reg].max()) > 1e-9:
+                                    fail(f"C12:divergence:{mode}:derivative-axis-boundary", f"{desc}: divergence of ({a_} {key} + 0.5) e_{key} is off by "
+                                         f"{float((dv[0, 0] - a_).abs()[reg].max()):.3g} at a point interior w.r.t. the other axes", case=desc, sdim=sd)
+                                    raise StopIteration
+                                other = (sd + 1) % D
+                                comp = [torch.zeros(shape_t, dtype=torch.float64) for _ in range(D)]
+                                comp[other] = a_ * X[sd] + 0.5   # d u_other / d x_sd = a_
+                                w = torch.stack(comp, 0).unsqueeze(0)
+                                cu = FL.curl(w, mode=mode, spacing=sp1)
+                                Aw = [[0.0] * D for _ in range(D)]
+                                Aw[other][sd] = a_
+                                want = [Aw[1][0] - Aw[0][1]] if D == 2 else [Aw[2][1] - Aw[1][2], Aw[0][2] - Aw[2][0], Aw[1][0] - Aw[0][1]]
+                                if any(float((cu[0, j] - wv).abs()[reg].max()) > 1e-9 for j, wv in enumerate(want)):
+                                    fail(f"C12:curl:{mode}:derivative-axis-boundary", f"{desc}: curl of ({a_} {key} + 0.5) e_{letters[other]} differs from {want} at a "
+                                         f"point interior w.r.t. the other axes", case=desc, sdim=sd)
+                                    raise StopIteration
+                    except StopIteration:
+                        pass
+                    except Exception as e:  # noqa
+                        fail(f"C12:derivative-axis-boundary:{mode}:D{D}:raises", f"{desc}: {type(e).__name__}: {str(e)[:140]}", case=desc)
+        if p.get("stage") == "edge":
+            return {"fails": fails, "counts": counts}
+
     FORMS = ["scalar", "axis", "batch", "batch-iso"]
     cfgs = []
     for i in range(n):
